@@ -7,9 +7,16 @@ pub mod c01;
 pub mod c02;
 pub mod c03;
 pub mod c04;
+pub mod c05;
 pub mod c06;
 pub mod c08;
+pub mod c09;
+pub mod c12;
+pub mod c14;
 pub mod c15;
+pub mod c16;
+pub mod c18;
+pub mod c20;
 pub mod c17;
 
 #[derive(Clone, Copy, PartialEq, Eq, Debug)]
@@ -29,7 +36,7 @@ pub struct CheckDef {
 }
 
 pub fn registry() -> Vec<CheckDef> {
-    vec![c01::def(), c02::def(), c03::def(), c04::def(), c06::def(), c08::def(), c15::def(), c17::def()]
+    vec![c01::def(), c02::def(), c03::def(), c04::def(), c05::def(), c06::def(), c08::def(), c09::def(), c12::def(), c14::def(), c15::def(), c16::def(), c18::def(), c20::def(), c17::def()]
 }
 
 /// deterministic xorshift generator for seeded sampling
@@ -79,7 +86,7 @@ pub fn shapes(wmax: usize, xmax: usize, smax: usize, tmax: usize, amax: usize, b
 pub fn base_cfg(tier: Tier) -> Cfg {
     let mut c = Cfg::default();
     c.query_timeout_ms = match tier {
-        Tier::Quick => 60_000,
+        Tier::Quick => 20_000,
         Tier::Thorough => 600_000,
     };
     c
